@@ -44,7 +44,14 @@ def _block():
                      st.lists(st.sampled_from(["set(x 1)", "foo(a b)", "  bar()"]), min_size=1, max_size=3))
     nested = st.builds(lambda b1, b2: [".. note::", "", "   " + b1, "", "   * " + b2, ""] + ["   .. tip::", "", "      " + b1],
                        _sent, _sent)
-    return st.one_of(para, para, fields, typed, bullets, dashes, enum, literal, directive, admon, code, nested)
+    # runs of two or three empty lines directly in front of an indented line (directive body, literal block, continuation)
+    spaced = st.builds(lambda name, n, body: [f".. {name}::"] + [""] * n + ["   " + b for b in body],
+                       st.sampled_from(["note", "warning", "tip"]), st.integers(2, 3), st.lists(_sent, min_size=1, max_size=2))
+    spaced_lit = st.builds(lambda t, n, code: [t[:-1] + "::"] + [""] * n + ["   " + c for c in code], _sent, st.integers(2, 3),
+                           st.lists(st.sampled_from(["set(x 1)", "a = b"]), min_size=1, max_size=2))
+    spaced_item = st.builds(lambda a, n, b: ["* " + a] + [""] * n + ["  " + b], _sent, st.integers(2, 3), _sent)
+    return st.one_of(para, para, fields, typed, bullets, dashes, enum, literal, directive, admon, code, nested,
+                     spaced, spaced_lit, spaced_item)
 
 
 def rest_doc():
@@ -52,7 +59,7 @@ def rest_doc():
         lines = []
         for i, b in enumerate(blocks):
             if i:
-                lines.append("")
+                lines += [""] * (1 + (len(b) + i) % 3)       # one to three empty lines between blocks
             lines += b
         return lines
     return st.fixed_dictionaries({"lines": st.lists(_block(), min_size=0, max_size=4).map(join),
@@ -65,6 +72,26 @@ def strategy(tier):
                   groups=True, body_max=3, weights={"class": 3, "test": 2, "parseargs": 0, "block": 1},
                   set_values=G.arglist(0, 4, G.SINGLE_T))      # argument values without line breaks (the property's carve-out)
     return st.fixed_dictionaries({"module": G.module(p), "layout": G.layout_choices(8)})
+
+
+LONG = '"' + " ".join(f"-Wsome-quite-long-flag-{i}" for i in range(9)) + ' @@"'
+
+
+def _lengthen(mod):
+    """Some single-line argument values far longer than a terminal line (with blanks to break at)."""
+    n = 0
+    for it, _, _ in G.walk(mod["items"]):
+        n += 1
+        if n % 3:
+            continue
+        val = LONG.replace("@@", str(n))
+        if it["k"] == "attr" and it["extra"]:
+            it["extra"][0] = val
+        elif it["k"] == "set" and it["values"]:
+            it["values"][-1] = val
+        elif it["k"] == "option":
+            it["help"] = val
+    return mod
 
 
 def _fix_markers(module):
@@ -108,6 +135,7 @@ def _fix_markers(module):
                 d["lines"] = [mk + " marker paragraph.", ""] + body
     for it, _, _ in G.walk(mod["items"]):
         fix(it.get("doc"))
+    _lengthen(mod)
     if mod.get("moddoc"):
         fix(mod["moddoc"])
         # docutils measures title adornments in display columns; C12 fixes them to the title's length in characters.
